@@ -36,6 +36,20 @@ def St.core (s : St) : Core := ⟨s.proc, s.procHid, s.invCount, s.hideCount⟩
 @[simp] theorem core_setRes (s : St) (n : Node) (v : Val) : (s.setRes n v).core = s.core := rfl
 @[simp] theorem core_spawn (s : St) (fs : List Frame) (nm : TaskName) : (spawn s fs nm).1.core = s.core := rfl
 
+@[simp] theorem core_noteOrder (s : St) (ok : Bool) : (s.noteOrder ok).core = s.core := by
+  unfold St.noteOrder; split <;> rfl
+
+/-- the ghost flag is the only field `noteOrder` may change -/
+theorem noteOrder_fields (s : St) (ok : Bool) :
+    (s.noteOrder ok).res = s.res ∧ (s.noteOrder ok).resHid = s.resHid ∧ (s.noteOrder ok).proc = s.proc ∧
+    (s.noteOrder ok).procHid = s.procHid ∧ (s.noteOrder ok).active = s.active ∧ (s.noteOrder ok).sw = s.sw ∧
+    (s.noteOrder ok).evSet = s.evSet ∧ (s.noteOrder ok).opened = s.opened ∧ (s.noteOrder ok).additional = s.additional ∧
+    (s.noteOrder ok).invCount = s.invCount ∧ (s.noteOrder ok).hideCount = s.hideCount ∧
+    (s.noteOrder ok).tasks = s.tasks ∧ (s.noteOrder ok).outcome = s.outcome := by
+  unfold St.noteOrder; split <;> exact ⟨rfl, rfl, rfl, rfl, rfl, rfl, rfl, rfl, rfl, rfl, rfl, rfl, rfl⟩
+
+@[simp] theorem noteOrder_true (s : St) : s.noteOrder true = s := rfl
+
 @[simp] theorem core_setSw (s : St) (n : Node) (lc : Label × Node) : (s.setSw n lc).core = s.core := rfl
 @[simp] theorem core_setActive (s : St) (a : List (Node × Node)) : (s.setActive a).core = s.core := rfl
 @[simp] theorem core_setAdditional (s : St) (n : Node) (v : Val) : (s.setAdditional n v).core = s.core := rfl
